@@ -2006,12 +2006,15 @@ static void DecodeSTM(Word Index) {
         ;
     else if (ThisPar) {
         WrError(ErrNum_ParNotPossible);
-    } else if (DecodeAdr(&ArgStr[1], MModImm)) {
-        WAsmCode[1]   = *AdrVals;
-        ForcePageZero = True;
-        if (DecodeAdr(&ArgStr[2], MModMem)) {
-            *WAsmCode = 0x7700 | (*AdrVals);
-            CodeLen   = 2;
+    } else {
+        OpSize = SInt16;
+        if (DecodeAdr(&ArgStr[1], MModImm)) {
+            WAsmCode[1]   = *AdrVals;
+            ForcePageZero = True;
+            if (DecodeAdr(&ArgStr[2], MModMem)) {
+                *WAsmCode = 0x7700 | (*AdrVals);
+                CodeLen   = 2;
+            }
         }
     }
 }
